@@ -30,6 +30,11 @@ pub struct Renderer {
     pub avoid_blank_lines: bool,
     /// notable variants used in this rendering
     pub feats: Vec<&'static str>,
+    /// render every `fail c` leaf whose category is that of this entry of
+    /// failtab::TABLE with that entry (otherwise: seeded draw)
+    pub force_fail: Option<usize>,
+    /// entries of failtab::TABLE used in this rendering
+    pub fails_used: Vec<usize>,
 }
 
 pub struct Rendered {
@@ -39,6 +44,8 @@ pub struct Rendered {
     /// (name relative to the working directory, content, mode)
     pub files: Vec<(String, Vec<u8>, u32)>,
     pub feats: Vec<&'static str>,
+    /// entries of failtab::TABLE the `fail c` leaves were rendered with
+    pub fails: Vec<usize>,
 }
 
 /// One complete command each, none of them well-formed.
@@ -63,7 +70,7 @@ pub const SIM_CWD: &str = "/w";
 impl Renderer {
     pub fn new(seed: u64, mode: Mode, vary: bool) -> Self {
         Renderer { rng: StdRng::seed_from_u64(seed), mode, vary, files: vec![], vars: vec![], use_path: false,
-                   avoid_blank_lines: false, feats: vec![] }
+                   avoid_blank_lines: false, feats: vec![], force_fail: None, fails_used: vec![] }
     }
 
     fn pick(&mut self, n: usize) -> usize {
@@ -552,6 +559,21 @@ impl Renderer {
                 let path = self.slash_path(&fname);
                 vec![self.dot_name().into(), path]
             }
+            "fail" => {
+                // one documented error invocation of the category (seeded draw,
+                // also in the plain rendering)
+                let cands = crate::failtab::of_cat(&n.s);
+                if cands.is_empty() {
+                    return format!("unknown-fail-category-{}", n.s);
+                }
+                let idx = match self.force_fail {
+                    Some(f) if crate::failtab::TABLE[f].cat == n.s => f,
+                    _ => cands[self.rng.gen_range(0..cands.len())],
+                };
+                self.fails_used.push(idx);
+                let text = crate::failtab::text(idx, real);
+                return if crate::failtab::TABLE[idx].list { format!("{{ {text}; }}") } else { text };
+            }
             "exec" => match n.s.as_str() {
                 "found" => {
                     // (real OS only: the simulator cannot replace a process image)
@@ -620,6 +642,10 @@ impl Renderer {
                 _ => format!("PATH=/nx-yv/bin:{dir}:$PATH"),
             });
         }
+        if root.any(&|n| n.k == "fail") {
+            // the read-only variable of the assignment-error invocations
+            prelude.push("readonly RO=1".into());
+        }
         if e {
             match self.pick(4) {
                 0 | 1 => flags.push("-e".into()),
@@ -649,6 +675,7 @@ impl Renderer {
             s.push('\n');
         }
         let via_stdin = self.rare();
-        Rendered { script: s, flags, via_stdin, files: std::mem::take(&mut self.files), feats: std::mem::take(&mut self.feats) }
+        Rendered { script: s, flags, via_stdin, files: std::mem::take(&mut self.files), feats: std::mem::take(&mut self.feats),
+                   fails: std::mem::take(&mut self.fails_used) }
     }
 }
